@@ -665,3 +665,73 @@ func rpcPagerHistory(c *Ctx, id int) {
 	}
 	c.Hit("pager-history")
 }
+
+// rpcPagerLimit: "never more than the advertised page limit" needs a collection LARGER than the limit. Accelerator
+// projects are the cheapest to mass-produce (one send of 1 ZNN each): more than RpcMaxPageSize of them are created and
+// every pager over them is asked for pages larger than the limit; the answer must be an error or hold at most
+// RpcMaxPageSize elements.
+func rpcPagerLimit(c *Ctx, id int) {
+	origGate := verifier.ReceiverMismatchEnforcementHeight
+	defer func() { verifier.ReceiverMismatchEnforcementHeight = origGate }()
+	verifier.ReceiverMismatchEnforcementHeight = 0
+	n := NewNode()
+	defer n.Stop()
+	fail := func(format string, a ...interface{}) {
+		c.Fail("rpc run=%d page-limit: %s", id, fmt.Sprintf(format, a...))
+	}
+	if err := n.ActivateSpork(types.AcceleratorSpork, "spork-acc"); err != nil {
+		fail("setup: spork activation: %v", err)
+		return
+	}
+	max := int(api.RpcMaxPageSize)
+	want := max + 3 + c.R.Intn(20)
+	znn := func(units int64) *big.Int { return new(big.Int).Mul(big.NewInt(units), big.NewInt(g.Zexp)) }
+	owners := []types.Address{g.User1.Address, g.User2.Address, g.Pillar4.Address, g.Pillar5.Address}
+	sent := 0
+	for round := 0; sent < want && round < 400; round++ {
+		for k := 0; k < 40 && sent < want; k++ {
+			if _, err := n.Submit(&nom.AccountBlock{BlockType: nom.BlockTypeUserSend, Address: owners[sent%len(owners)], ToAddress: types.AcceleratorContract, TokenStandard: types.ZnnTokenStandard,
+				Amount: constants.ProjectCreationAmount, Data: definition.ABIAccelerator.PackMethodPanic(definition.CreateProjectMethodName, fmt.Sprintf("p-%d", sent), "d", "www.zenon.network", znn(1), znn(10))}); err != nil {
+				break
+			}
+			sent++
+		}
+		if _, err := n.Momentum(); err != nil {
+			fail("setup: momentum: %v", err)
+			return
+		}
+	}
+	for k := 0; k < 40; k++ { // let the contract receive what is still in its inbox
+		n.Momentum()
+	}
+	pl, err := definition.GetProjectList(n.Chain().GetFrontierMomentumStore().GetAccountStore(types.AcceleratorContract).Storage())
+	if err != nil || len(pl) <= max {
+		c.Hit("page-limit-setup-too-small")
+		c.Emit("#page-limit setup: %d projects (sent %d): %v", len(pl), sent, err)
+		return
+	}
+	c.Emit("#page-limit setup: %d projects", len(pl))
+	args := &pagerArgs{addrs: []types.Address{g.User1.Address}, strings: []string{"x"}, u64s: []uint64{0}, u32s: []uint32{0}, hashes: []types.Hash{{}}}
+	for _, pc := range findPagers(n, args) {
+		for _, k := range []uint32{uint32(max), uint32(max) + 1, uint32(len(pl)), 1 << 20, 1<<32 - 1} {
+			var res interface{}
+			var err error
+			if p := safely(func() { res, err = pc.f(0, k) }); p != "" {
+				fail("C18: %s(page 0, size %d) panicked: %s", pc.name, k, p)
+				continue
+			}
+			if err != nil {
+				continue
+			}
+			pa, ok := parsePaged(res)
+			if !ok {
+				continue
+			}
+			c.Hit("page-limit-asked")
+			if len(pa.list) > max {
+				fail("C18: page-limit: %s(page 0, size %d) returns %d elements; the advertised page limit is %d", pc.name, k, len(pa.list), max)
+				break
+			}
+		}
+	}
+}
